@@ -1,31 +1,53 @@
 -------------------------- MODULE MC_ECScalarClasses --------------------------
 (* Scalar classes for the register machine of ECRegs.tla, enumerated (not      *)
-(* sampled).  Rule (EC.tla, TableWidthRule): k*G is defined for every integer  *)
-(* k independent of the bit width of N, so a multiplier may be wider than any  *)
-(* fixed-size table or word an implementation happens to use.                  *)
-(* The harness concretizes the symbols as b1 = 2^256 and b2 = 2^300 here, on   *)
-(* every production curve and on user-constructed curves with orders wider     *)
-(* than 256 bits (secp384r1, secp521r1).  The classes are then                 *)
+(* sampled).  Rule (EC.tla, TableWidthRule): k*P is defined for every integer  *)
+(* k independent of the bit width of N, so a multiplier may be wider than -    *)
+(* or sit exactly on the edge of - any fixed-size table or machine word an     *)
+(* implementation happens to use.  Two families of classes:                    *)
+(*                                                                             *)
+(* Family = "wide": the harness concretizes the symbols as b1 = 2^256 and      *)
+(*   b2 = 2^300, on every production curve and on user-constructed curves with *)
+(*   orders wider than 256 bits (secp384r1, secp521r1).  The classes are then  *)
 (*   2^256-1, 2^256, 2^256+1, 2^257, 2^300-3, 2^300, 2^300+1, 2^256+2^300,     *)
 (*   2^512, -2^256, 2^256-2^300 (negative), and N-1, N, N+1, 2N-1, -N-1, -2.   *)
-(* Each behaviour: choose the generator's blinding factor (0 or 2^256), load   *)
+(* Family = "word": b1 = 2^32, b2 = 2^63 on every production backend.  The     *)
+(*   classes are the edges of 32- and 64-bit signed and unsigned words         *)
+(*   2^32-1, 2^32, 2^32+1, 2^63-1, 2^63, 2^63+1, 2^64-1, 2^64 (written both    *)
+(*   b1*b1 and b2+b2), 2^64+1, 2^64-2^32 (so that scalar + blinding factor b1  *)
+(*   is 2^64), 2^95, 2^126, each also shifted by -N and +N (negative resp.     *)
+(*   k >= N scalars whose reduction sits on the edge).                         *)
+(*                                                                             *)
+(* Each behaviour: choose the generator's blinding factor (0 or b1), load      *)
 (* P = 5*G, then ONE multiplication by a class scalar through each entry       *)
 (* point: the general ladder on the point G, the fixed-base table without and  *)
-(* with blinding, and the general ladder on P (P*k / k*P).                     *)
+(* with blinding, the general ladder on P (P*k / k*P) and the key-agreement    *)
+(* entry point on P's coordinates.                                             *)
 EXTENDS ECRegs
 
-ClassForms == {PSub(PB1, PConst(1)), PB1, PAdd(PB1, PConst(1)), PAdd(PB1, PB1),
-               PSub(PB2, PConst(3)), PB2, PAdd(PB2, PConst(1)), PAdd(PB1, PB2),
-               PMul(PB1, PB1), PNeg(PB1), PSub(PB1, PB2)}
-ScalarClasses == {<<0, f>> : f \in ClassForms}
-                 \cup {<<1, PConst(0 - 1)>>, <<1, PZero>>, <<1, PConst(1)>>, <<2, PConst(0 - 1)>>,
-                       <<0 - 1, PConst(0 - 1)>>, <<0, PConst(0 - 2)>>}
+CONSTANT Family
+
+WideForms == {PSub(PB1, PConst(1)), PB1, PAdd(PB1, PConst(1)), PAdd(PB1, PB1),
+              PSub(PB2, PConst(3)), PB2, PAdd(PB2, PConst(1)), PAdd(PB1, PB2),
+              PMul(PB1, PB1), PNeg(PB1), PSub(PB1, PB2)}
+WideClasses == {<<0, f>> : f \in WideForms}
+               \cup {<<1, PConst(0 - 1)>>, <<1, PZero>>, <<1, PConst(1)>>, <<2, PConst(0 - 1)>>,
+                     <<0 - 1, PConst(0 - 1)>>, <<0, PConst(0 - 2)>>}
+
+PSq1 == PMul(PB1, PB1)
+WordForms == {PSub(PB1, PConst(1)), PB1, PAdd(PB1, PConst(1)),
+              PSub(PB2, PConst(1)), PB2, PAdd(PB2, PConst(1)),
+              PSub(PSq1, PConst(1)), PSq1, PAdd(PSq1, PConst(1)), PAdd(PB2, PB2),
+              PSub(PSq1, PB1), PMul(PB1, PB2), PMul(PB2, PB2)}
+WordClasses == {<<m, f>> : m \in {0 - 1, 0, 1}, f \in WordForms}
+
+ScalarClasses == IF Family = "word" THEN WordClasses ELSE WideClasses
 Blinds == {PZero, PB1}
 
 CNext == \/ Len(hist) = 0 /\ \E bf \in Blinds : SetBlind(bf)
          \/ Len(hist) = 1 /\ Load(1, 0, PConst(5))
          \/ Len(hist) = 2 /\ \E c \in ScalarClasses :
-               \/ Load(2, c[1], c[2]) \/ GenMulRaw(2, c[1], c[2]) \/ GenMulBlinded(2, c[1], c[2])
-               \/ MulR(1, 2, c[1], c[2])
+               \/ GenMulBlinded(2, c[1], c[2])
+               \/ blind = PZero /\ (\/ Load(2, c[1], c[2]) \/ GenMulRaw(2, c[1], c[2])         \* these do not involve the blinding factor
+                                    \/ MulR(1, 2, c[1], c[2]) \/ SharedKey(1, 2, c[1], c[2]))
 CSpec == Init /\ [][CNext]_vars
 =============================================================================
